@@ -490,9 +490,13 @@ def _decider_paths(ctx: Ctx, f: FunctionInfo):
         if p_ not in (alts_p, ctx_p):
             env.vars[p_] = ParamV(p_)
 
+    # local names bound to the distance method (distance = self.grammar.get_distance_to_terminal)
+    dist_aliases = {a.targets[0].id for a in walk_local(f.node) if isinstance(a, ast.Assign) and len(a.targets) == 1
+                    and isinstance(a.targets[0], ast.Name) and isinstance(a.value, ast.Attribute) and a.value.attr == "get_distance_to_terminal"}
+
     def call_hook(e_: Env, call: ast.Call):
         nm = call_name(call)
-        if nm == "get_distance_to_terminal":
+        if nm == "get_distance_to_terminal" or (isinstance(call.func, ast.Name) and call.func.id in dist_aliases):
             return d
         if nm in ("choice", "choice_weighted") and call.args:
             return ChoiceOf(evaluate(e_, call.args[0]), call)
@@ -593,10 +597,17 @@ def filter_rule(ctx: Ctx, rid: str, require_equivalence_everywhere: bool = False
                 combos = [a + conj for a in combos for conj in expand_dnf(cond, snap)]
             for combo in combos:
                 facts = o.env.facts.copy()
+                opaque_atom = None
                 for atom, snap in combo:
                     e2 = snap.copy()
                     e2.facts = facts
+                    if isinstance(atom, ast.Compare) and len(atom.ops) == 1 and isinstance(atom.ops[0], (ast.Lt, ast.LtE, ast.Gt, ast.GtE, ast.Eq)) \
+                            and not (isinstance(evaluate(e2, atom.left), Lin) and isinstance(evaluate(e2, atom.comparators[0]), Lin)):
+                        opaque_atom = atom       # an arithmetic condition the engine cannot evaluate: nothing may be concluded from it
                     assume(e2, atom, True)
+                if not entails_ge0(facts, M - c - d) and opaque_atom is not None:
+                    st_["und"] = st_["und"] or f"the filter condition '{norm(opaque_atom)[:60]}' is not followed"
+                    continue
                 if not entails_ge0(facts, M - c - d):
                     wit = find_model(facts, M - c - d)
                     st_["sound"] = st_["sound"] or (f"the condition '{' and '.join(norm(a) for a, _ in combo)[:160]}' admits an alternative whose "
@@ -610,6 +621,10 @@ def filter_rule(ctx: Ctx, rid: str, require_equivalence_everywhere: bool = False
                     e2 = snap.copy()
                     e2.facts = facts
                     if not cond_holds(cond, snap, facts):
+                        cmp_ = [x for x in ast.walk(cond) if isinstance(x, ast.Compare) and len(x.ops) == 1 and isinstance(x.ops[0], (ast.Lt, ast.LtE, ast.Gt, ast.GtE, ast.Eq))]
+                        if any(not (isinstance(evaluate(e2, x.left), Lin) and isinstance(evaluate(e2, x.comparators[0]), Lin)) for x in cmp_):
+                            st_["und"] = st_["und"] or f"the filter condition '{norm(cond)[:60]}' is not followed"
+                            continue
                         wit = None
                         if isinstance(cond, ast.Compare) and len(cond.ops) == 1:
                             a_, b_ = evaluate(e2, cond.left), evaluate(e2, cond.comparators[0])
@@ -639,6 +654,18 @@ def filter_rule(ctx: Ctx, rid: str, require_equivalence_everywhere: bool = False
                 _check_one(one, o)
         sound_bad, complete_bad, undecided = st_["sound"], st_["complete"], st_["und"]
         n += npaths
+        if (npaths == 0 or undecided) and not sound_bad and not complete_bad:
+            # the affine engine does not follow this spelling (explicit loops with append / continue, aliases): decide the same two
+            # clauses on the exhaustive small-scope model of the chooser (sa/rules/choosermodel.py)
+            from .choosermodel import chooser_verdicts
+            exact = cls.name == "MaxDepthDecider"      # grow offers exactly what fits; its subclasses prefer a subset
+            snd, cmpl, _m, nm_ = chooser_verdicts(ctx, f, exact=exact)
+            if snd[0] is not None and cmpl[0] is not None:
+                n += nm_
+                ctx.ob(rid, f, f.node, f"{cls.name}: every alternative that can be chosen fits the remaining depth", snd[0], snd[1], witness={"model_scenarios": nm_})
+                ctx.ob(rid, f, f.node, f"{cls.name}: when nothing else is left, every alternative that still fits can be chosen", cmpl[0], cmpl[1],
+                       witness={"model_scenarios": nm_})
+                continue
         if npaths == 0:
             ctx.ob(rid, f, f.node, f"{cls.name}: every alternative that can be chosen fits the remaining depth", None,
                    undecided or "no path reaches random.choice")
